@@ -33,30 +33,48 @@ fn pred(u: &mut Unstructured, depth: u8) -> arbitrary::Result<P> {
 }
 
 fuzz_target!(|data: &[u8]| {
-    let mut u = Unstructured::new(data);
-    let mut cols = Vec::new();
-    for _ in 0..3 {
-        let kind = match u8::arbitrary(&mut u).unwrap_or(0) % 3 {
-            0 => Kind::Int,
-            1 => Kind::Float,
-            _ => Kind::Str,
+    guarded(std::panic::AssertUnwindSafe(|| {
+        let mut u = Unstructured::new(data);
+        let mut cols = Vec::new();
+        for _ in 0..3 {
+            let kind = match u8::arbitrary(&mut u).unwrap_or(0) % 3 {
+                0 => Kind::Int,
+                1 => Kind::Float,
+                _ => Kind::Str,
+            };
+            let n = 1 + u8::arbitrary(&mut u).unwrap_or(0) % 6;
+            let rows = (0..n).map(|_| match i8::arbitrary(&mut u).unwrap_or(0) { -128 => None, v => Some(v % 13) }).collect();
+            let stats = match u8::arbitrary(&mut u).unwrap_or(0) % 10 {
+                0 => StatsMode::Missing,
+                1 => StatsMode::Mistyped(u8::arbitrary(&mut u).unwrap_or(0)),
+                _ => StatsMode::Exact,
+            };
+            cols.push(Col { kind, rows, stats });
+        }
+        let p = match pred(&mut u, 3) {
+            Ok(p) => p,
+            Err(_) => return,
         };
-        let n = 1 + u8::arbitrary(&mut u).unwrap_or(0) % 6;
-        let rows = (0..n).map(|_| match i8::arbitrary(&mut u).unwrap_or(0) { -128 => None, v => Some(v % 13) }).collect();
-        let stats = match u8::arbitrary(&mut u).unwrap_or(0) % 10 {
-            0 => StatsMode::Missing,
-            1 => StatsMode::Mistyped(u8::arbitrary(&mut u).unwrap_or(0)),
-            _ => StatsMode::Exact,
-        };
-        cols.push(Col { kind, rows, stats });
-    }
-    let p = match pred(&mut u, 3) {
-        Ok(p) => p,
-        Err(_) => return,
-    };
-    let case = Case { cols, pred: p };
-    let out = exec_box(&case);
-    if let Some(f) = out.failure {
-        panic!("C12 violation {} :: {} :: case {}", f.signature, f.message, serde_json::to_string(&case).unwrap());
-    }
+        let case = Case { cols, pred: p };
+        let out = exec_box(&case);
+        if let Some(f) = out.failure {
+            panic!("C12 violation {} :: {} :: case {}", f.signature, f.message, serde_json::to_string(&case).unwrap());
+        }
+    }));
 });
+
+/// libfuzzer-sys installs a panic hook that aborts the process, which would turn panics that
+/// the code under test catches itself (e.g. around the Arrow IPC decoder) into crashes.
+/// Replace it by a recording hook; anything that *escapes* the target body aborts explicitly.
+fn guarded(f: impl FnOnce() + std::panic::UnwindSafe) {
+    static INIT: std::sync::Once = std::sync::Once::new();
+    INIT.call_once(|| {
+        std::panic::set_hook(Box::new(|info| {
+            eprintln!("panicked: {}", info);
+        }));
+    });
+    if std::panic::catch_unwind(f).is_err() {
+        eprintln!("VIOLATION: a panic escaped the receiver / the oracle failed");
+        std::process::abort();
+    }
+}
